@@ -191,6 +191,34 @@ func projectHTML(s string) HProj {
 	return p
 }
 
+// HSets is the part of the projection the HTML invariants are stated over.
+type HSets struct {
+	Elems   []string `json:"elems"`
+	Attrs   []string `json:"attrs"`
+	Schemes []string `json:"schemes"`
+	Props   []string `json:"props"`
+}
+
+// TSets is the part of the projection TextFullyEscaped is stated over (plus
+// the URL schemes of the anchors, recorded but not judged).
+type TSets struct {
+	Elems   []string `json:"elems"`
+	EAttrs  []EAttr  `json:"eattrs"`
+	Schemes []string `json:"schemes"`
+	Text    string   `json:"text"`
+	TextH   string   `json:"texth"`
+}
+
+func htmlSets(s string) HSets {
+	p := projectHTML(s)
+	return HSets{Elems: p.Elems, Attrs: p.Attrs, Schemes: p.Schemes, Props: p.Props}
+}
+
+func textSets(s string) TSets {
+	p := projectHTML(s)
+	return TSets{Elems: p.Elems, EAttrs: p.EAttrs, Schemes: p.Schemes, Text: p.Text, TextH: p.TextH}
+}
+
 // canonText: the original text as the text content of an HTML rendering can
 // show it: every line break is one LF, and NUL (which an HTML parser drops)
 // is dropped.
@@ -229,11 +257,13 @@ type cssTok struct {
 	c rune
 }
 
-func cssIsWS(c rune) bool        { return c == ' ' || c == '\t' || c == '\n' }
-func cssIsDigit(c rune) bool     { return c >= '0' && c <= '9' }
-func cssIsHex(c rune) bool       { return cssIsDigit(c) || c >= 'a' && c <= 'f' || c >= 'A' && c <= 'F' }
-func cssIsNameStart(c rune) bool { return c >= 'a' && c <= 'z' || c >= 'A' && c <= 'Z' || c == '_' || c >= 0x80 }
-func cssIsName(c rune) bool      { return cssIsNameStart(c) || cssIsDigit(c) || c == '-' }
+func cssIsWS(c rune) bool    { return c == ' ' || c == '\t' || c == '\n' }
+func cssIsDigit(c rune) bool { return c >= '0' && c <= '9' }
+func cssIsHex(c rune) bool   { return cssIsDigit(c) || c >= 'a' && c <= 'f' || c >= 'A' && c <= 'F' }
+func cssIsNameStart(c rune) bool {
+	return c >= 'a' && c <= 'z' || c >= 'A' && c <= 'Z' || c == '_' || c >= 0x80
+}
+func cssIsName(c rune) bool { return cssIsNameStart(c) || cssIsDigit(c) || c == '-' }
 
 type cssLexer struct {
 	r []rune
@@ -756,7 +786,7 @@ func (e *webEnv) observe(ev tr.Ev, htmlPart, textPart []byte) {
 	inHTML, inText := msg.HTML(), msg.Text()
 	ev["inhtml"] = quoteShort(inHTML)
 	ev["intext"] = quoteShort(inText)
-	ev["inp"] = projectHTML(inHTML)
+	ev["inp"] = htmlSets(inHTML)
 	ev["want"] = want(jsonTransported(inText))
 
 	rec := httptest.NewRecorder()
@@ -795,8 +825,8 @@ func (e *webEnv) observe(ev tr.Ev, htmlPart, textPart []byte) {
 	ev["status"] = status
 	ev["err"] = herr
 	ev["panic"] = panicText
-	ev["html"] = projectHTML(outHTML)
-	ev["text"] = projectHTML(outText)
+	ev["html"] = htmlSets(outHTML)
+	ev["text"] = textSets(outText)
 	ev["rawhtml"] = quoteShort(outHTML)
 	ev["rawtext"] = quoteShort(outText)
 }
@@ -836,15 +866,15 @@ func cmdSanitize(args []string) error {
 				ev["err"] = errText
 				ev["panic"] = panicText
 				ev["raw"] = quoteShort(out)
-				ev["out"] = projectHTML(out)
-				ev["inp"] = projectHTML(string(input))
+				ev["out"] = htmlSets(out)
+				ev["inp"] = htmlSets(string(input))
 			case "text":
 				out, panicText := callTextToHTML(string(input))
 				ev["a"] = "text"
 				ev["in"] = quoteShort(string(input))
 				ev["panic"] = panicText
 				ev["raw"] = quoteShort(out)
-				ev["out"] = projectHTML(out)
+				ev["out"] = textSets(out)
 				ev["want"] = want(string(input))
 			case "web":
 				if wenv == nil {
